@@ -691,6 +691,10 @@ fn c05_case_t<A: Subject>(run: &Run, cfg: &Cfg, st: &Start, word: &[Op], cut: us
       Fl::Pessimistic => Fl::Optimistic,
     };
   }
+  // the minimum segment size is stored in the file: what the opener's options say about it does not matter
+  if cut % 2 == 1 {
+    ocfg.min_seg = if cfg.min_seg == 64 { 8 } else { 64 };
+  }
   let mut o = open_opts(&ocfg, capo, create);
   if !mode.writable() && cut % 2 == 1 {
     // the read-only constructors ignore the creation flags: the options the file was created with reopen it
